@@ -60,11 +60,17 @@ def make_datasets(shape, patterns, names=None, storage=None):
     for (_, i), what in special.items():
         if what == 'zeroerr':
             refe[i] = 0.0
+    if 'exactref' in special.values():
+        refe[:] = 0.0               # a deterministic reference: no error anywhere; the marked bin is 0-error and equal on the other side
     out = [mk(refv, refe, names[0])]
     for k, pat in enumerate(patterns):
         val = refv + np.array([5.0 + k if bad is True or bad == 'zeroerr' else 0.0 for bad in pat])
         err = refe * (1 + 0.1 * (k + 1))
+        if 'exactref' in special.values():
+            err = 0.1 + 0.01 * np.arange(ncell) * (k + 1)
         for i, what in enumerate(pat):
+            if what == 'exactref':
+                err[i] = 0.0
             if what == 'inf':
                 val[i] = np.inf
             elif what == 'nan':
@@ -73,7 +79,7 @@ def make_datasets(shape, patterns, names=None, storage=None):
     return out
 
 
-def build(kind, shape=(3,), patterns=((False, True, False),), alpha=0.05, extra=None, storage=None):
+def build(kind, shape=(3,), patterns=((False, True, False),), alpha=0.05, extra=None, storage=None, evaluate=True):
     """Evaluate a test of the given kind.  Returns (test, result)."""
     from valjean.gavroche.test import TestEqual, TestApproxEqual, TestResultFailed
     from valjean.gavroche.stat_tests.student import TestStudent
@@ -92,7 +98,7 @@ def build(kind, shape=(3,), patterns=((False, True, False),), alpha=0.05, extra=
         else:
             test = TestHolmBonferroni(name='t_holm', description='holm', alpha=alpha,
                                       test=TestStudent(*dss, name='t_student', description='student test', alpha=alpha))
-        return test, test.evaluate()
+        return test, (test.evaluate() if evaluate else None)
     if kind == 'failed':
         dss = make_datasets((2,), ((False, False),))
         test = TestEqual(*dss, name='t_failed', description='evaluation raised')
